@@ -1,6 +1,7 @@
 package props
 
 import (
+	"sync"
 	"fmt"
 	"strings"
 	"time"
@@ -41,7 +42,7 @@ func init() {
 			}
 			out := killRaceSpecs("C18", tier, seed, 0, nil)
 			for _, c := range confs {
-				for _, hist := range []string{"empty", "full", "noclient"} {
+				for _, hist := range []string{"empty", "full", "noclient", "concclient"} {
 					out = append(out, sp("C18", fmt.Sprintf("cell/%s/%s%s/%s", confLabel(c), c["launch"], c["xlate"]+c["usc"], hist), seed, cp(c, "hist", hist)))
 				}
 			}
@@ -91,6 +92,39 @@ func runC18(r *h.Run) {
 			r.Violate("setup", "start "+ctx, fmt.Sprint(o.Err))
 			return
 		}
+	} else if hist == "concclient" {
+		// the first Client() calls of two host goroutines overlap (one dispenses, one health-checks)
+		r.InstallPlugin(&c)
+		s = &session{r: r, c: c, name: c.String()}
+		s.cl = r.NewClient(c)
+		var wg sync.WaitGroup
+		for g := 0; g < 2; g++ {
+			wg.Add(1)
+			go k.Trap(func() {
+				defer wg.Done()
+				r.DoNoHang("Client", 90*time.Second, ctx, func() (any, error) {
+					cp, err := s.cl.Client()
+					if err == nil {
+						err = cp.Ping()
+					}
+					return nil, err
+				})
+			})
+		}
+		wg.Wait()
+		o := r.DoNoHang("Client+Dispense", 90*time.Second, ctx, func() (any, error) {
+			cp, err := s.cl.Client()
+			if err != nil {
+				return nil, err
+			}
+			s.cp = cp
+			return cp.Dispense(h.PluginName)
+		})
+		if o.Err != nil || o.Hung {
+			r.Violate("setup", "concurrent first Client "+ctx, fmt.Sprint(o.Err))
+			return
+		}
+		s.cmd = o.Val.(plugins.Cmd)
 	} else {
 		s = open(r, c)
 		if s == nil {
@@ -189,6 +223,14 @@ func runC18(r *h.Run) {
 	if leaks := r.HostStacks("simworld/goplugin"); leaks != "" {
 		fn := leakFunc(leaks)
 		r.Violate("goroutine-leak", fmt.Sprintf("%s in=%s", ctx, fn), leaks)
+	}
+	// a connection object go-plugin built and never closed keeps goroutines of
+	// the RPC library alive instead
+	if leaks := r.HostStacks("google.golang.org/grpc"); leaks != "" {
+		r.Violate("goroutine-leak", ctx+" in=grpc-go (a gRPC connection go-plugin created was never closed)", leaks)
+	}
+	if leaks := r.HostStacks("hashicorp/yamux"); leaks != "" {
+		r.Violate("goroutine-leak", ctx+" in=yamux (a yamux session go-plugin created was never closed)", leaks)
 	}
 }
 
